@@ -332,8 +332,8 @@ func (m *repoManager) Shutdown() {
 // MarshalJSON returns JSON of object where each repo is a property with root UUID name
 // and value corresponding to repo info.
 func (m *repoManager) MarshalJSON() ([]byte, error) {
-	repos := make(map[dvid.UUID]*repoT, len(m.repoToUUID))
 	m.idMutex.RLock()
+	repos := make(map[dvid.UUID]*repoT, len(m.repoToUUID))
 	for _, uuid := range m.repoToUUID {
 		m.repoMutex.RLock()
 		repos[uuid] = m.repos[uuid]
